@@ -1,29 +1,29 @@
-"""Per-property configuration of the check driver."""
+"""Per-property configuration of the check driver: one JSON file per claimed
+property under /verif/props/, plus shared tables."""
+import json, os, glob
+
+ROOT = os.path.dirname(os.path.dirname(os.path.abspath(__file__)))
 
 # Axioms from Coq's own standard library that may appear under Print Assumptions
 # (each use is named in the evidence file); anything else breaks the check.
 ALLOWED_AXIOMS = {
     "functional_extensionality_dep",   # Coq.Logic.FunctionalExtensionality (Program Fixpoint / Equations)
-    "proof_irrelevance", "classic", "JMeq_eq", "eq_rect_eq",
+    "functional_extensionality",
+    "proof_irrelevance", "classic", "JMeq_eq", "eq_rect_eq", "Eqdep.Eq_rect_eq.eq_rect_eq",
 }
 
-ORDINALS_TRUST = ["rust-bitcoin script/opcode types used by crates/ordinals are exercised, not modelled, unless the model file says otherwise"]
-
-PROPS = {
-    "C26": dict(
-        harness="hx-ordinals", group="x_ordinals", model_module="Codec.Varint",
-        theorems=["C26_roundtrip", "C26_decode_exact", "C26_decode_errors"],
-        rule="encode: all 2^k, 2^k±1, MAX + random u128 of every bit width; decode: all byte strings of length <= 2 exhaustively, "
-             "random strings up to 24 bytes biased to continuation bits, encodings followed by junk; distinct = distinct case lines, "
-             "non-trivial = everything except the empty string",
-        level_text="Full proof on the model: round trip for every n < 2^128 with any trailing bytes, length 1..19; every Ok result of decode is exactly the value and length of the first terminated group and < 2^128; each error kind characterised. Model tied to the code by differential execution on >100k cases per run (all short strings exhaustively).",
-        level_note="Trusted: Coq kernel, extraction (ExtrOcamlBasic), the harness; the hand-written model of varint.rs is validated against the code only on the generated cases.",
-        modelled="crates/ordinals/src/varint.rs encode_to_vec/encode/decode are modelled in coq/Codec/Varint.v (hand-written); u128 wrap-around of `n |= value << 7i` cannot occur because the 19th byte is range-checked first (proved: result < 2^128)",
-    ),
-}
+PROPS = {}
+for f in sorted(glob.glob(os.path.join(ROOT, "props", "C*.json"))):
+    PROPS[os.path.basename(f)[:-5]] = json.load(open(f))
 
 # properties not claimed, with reason (everything not in PROPS and not listed here gets a default reason)
 NOT_CLAIMED = {}
+p = os.path.join(ROOT, "props", "not_claimed.json")
+if os.path.exists(p):
+    NOT_CLAIMED = json.load(open(p))
 
 # commits in /repo that add guarded hooks
 HOOK_COMMITS = []
+p = os.path.join(ROOT, "props", "hook_commits.txt")
+if os.path.exists(p):
+    HOOK_COMMITS = [l.split()[0] for l in open(p) if l.strip() and not l.startswith("#")]
